@@ -110,6 +110,23 @@ def _enc_default(o):
 # ---------------------------------------------------------------------------
 # fork isolation
 
+_LIBC = None
+
+
+def die_with_parent():
+    """PR_SET_PDEATHSIG(SIGKILL): a worker or run child never outlives the
+    process that started it (e.g. when a wall-clock timeout kills the check)."""
+    global _LIBC
+    try:
+        if _LIBC is None:
+            import ctypes
+
+            _LIBC = ctypes.CDLL("libc.so.6", use_errno=True)
+        _LIBC.prctl(1, 9, 0, 0, 0)
+    except Exception:
+        pass
+
+
 
 def forked(fn, args=(), alarm=60):
     """Run fn(*args) in a forked child; return its JSON-able result.
@@ -123,6 +140,7 @@ def forked(fn, args=(), alarm=60):
         code = 0
         try:
             os.close(r)
+            die_with_parent()
             signal.signal(signal.SIGALRM, signal.SIG_DFL)
             signal.alarm(alarm)
             import gc
